@@ -1,9 +1,9 @@
 #!/bin/sh
-# tools/seed_confirm.sh <name> [lane] — coordinator-side confirmation of a freshly written seeded change in /tmp/seed5:
+# tools/seed_confirm.sh <name> [lane] — coordinator-side confirmation of a freshly written seeded change in ${SEEDROOT:-/tmp/seed6}:
 #   1. tools/verify_seed.sh in the agent's scratch worktree (demo fails with the change, passes without; existing tests unchanged)
 #   2. trial of the property's quick check against the change in a lane (tools/lane.sh), never in /repo itself
 N="$1"; LANE="${2:-0}"
-SD=/tmp/seed5/out/$N; WT=/tmp/seed5/$N; ID=$(echo $N | cut -c1-3)
+SD=${SEEDROOT:-/tmp/seed6}/out/$N; WT=${SEEDROOT:-/tmp/seed6}/$N; ID=$(echo $N | cut -c1-3)
 CRATE=$(python3 -c "import json;print(json.load(open('$SD/meta.json'))['crate'])")
 DEMO=$(python3 -c "import json;print(json.load(open('$SD/meta.json')).get('demo_filter',''))")
 export SEED_FEATURES="$(python3 -c "import json;print(json.load(open('$SD/meta.json')).get('features',''))")"
